@@ -209,7 +209,7 @@ func init() {
 		return func(g *Gen) *Scn {
 			sc := &Scn{Family: name}
 			sc.Sub = g.Pick("share", "share", "sharereplay", "connectable")
-			sc.SetInt("connector", g.Intn(6)) // publish, behavior, replay1, replay2, replay0, replay-unlimited
+			sc.SetInt("connector", g.Intn(6))        // publish, behavior, replay1, replay2, replay0, replay-unlimited
 			sc.SetInt("rbuf", g.PickInt(0, 1, 1, 2)) // ShareReplay's buffer size
 			sc.SetInt("rE", g.Intn(2))
 			sc.SetInt("rC", g.Intn(2))
